@@ -712,28 +712,39 @@ def rule_mu(ctx):
 
 def rule_fresh(ctx):
     fx = ctx.facts
-    v, b = ev(fx, "fresh_variables_for_head_atom", [P("$a")])
-    ps = pushes(v)
-    E = ("each", ("call", "Iterator::enumerate", (("place", "$a.terms"),)))
-    I_ = ("proj", E, (("tuple", "0"),))
-    T_ = ("proj", E, (("tuple", "1"),))
-    TAKEN = ("call", "Atom::variables", (P("$a"),))
-    N1 = ("format", "N{i}", (I_,))
+    from .. import comp
+    comp.use(fx)
+    b = fx.fn("natural::fresh_variables_for_head_atom")
+    A_ = P("$a")
+    v = comp.canon(sym.Eval(fx, inline_depth=0).function(b, [A_]))
+    TERMS = ("fieldof", A_, "terms")
+    I_, T_ = ("idx", (TERMS,)), ("at", TERMS)
+    TAKEN = ("call", "Atom::variables", (A_,))
+    N1 = ("format", "N{}", (I_,))
+    N2 = ("format", "N{}_{}", (I_, ("lit", 0)))
+    needs = ("cond", ("call", "natural::is_term_regular_of_first_kind", (T_,)), False)
 
-    def free(n):
-        return ("op", "Not", ("call", "IndexSet::contains", (TAKEN, ("ctor", "Variable", (("0", n),)))))
-    ok = len(ps) >= 1 and ps[0] == (((("if", ("op", "Not", ("call", "natural::is_term_regular_of_first_kind", (T_,)))), "then"), (("if", free(N1)), "then")), N1)
+    def taken(n, pol):
+        return ("cond", ("call", "IndexSet::contains", (TAKEN, ("ctor", "Variable", (("0", n),)))), pol)
+    # one pass over the head terms (loop with push, or filter / map / collect, with or without a per-term helper): per term at most one name
+    groups = v[1] if isinstance(v, tuple) and v[:1] == ("coll",) else ()
+    alts = {ts: e for ts, e in groups[0][1]} if len(groups) == 1 and groups[0][0] == (TERMS,) else {}
+    ctx.add("FRESH", "head:one-pass", len(groups) == 1 and groups[0][0] == (TERMS,) and len(alts) == len(groups[0][1]) == 2, ctx.site(b),
+            "the fresh variables are collected in one pass over the head terms, in their order", construct=v if not alts else None)
+    ok = alts.get(frozenset({needs, taken(N1, False)})) == N1
     ctx.add("FRESH", "head:N-i", ok, ctx.site(b), "N<i> is produced for every head term that is not regular of the first kind, and only when the head atom does not contain a variable of that name")
-    alt = [p_ for p_ in ps[1:]]
-    ok2 = bool(alt) and all(p_[1][0] == "format" and p_[1][1] == "N{i}_{j}" and p_[0][-1] == (("if", free(p_[1])), "then") for p_ in alt)
-    ctx.add("FRESH", "head:N-i-j", ok2, ctx.site(b), "otherwise N<i>_<j> is tried and only handed out when the head atom does not contain it")
+    ok2 = alts.get(frozenset({needs, taken(N1, True), taken(N2, False)})) == N2
+    ctx.add("FRESH", "head:N-i-j", ok2, ctx.site(b), "otherwise N<i>_<j> is tried (from j = 0) and only handed out when the head atom does not contain it")
     # the j-loop increments until a free name is found
     loops = [n for n in walk(b["body"]) if n.get("k") == "Loop" and n.get("src") not in ("ForLoop", "While")]
-    incs = [n for n in walk(b["body"]) if n.get("k") == "AssignOp" and hq.render(n.get("l", n.get("lhs", {}))) == "j"] if loops else []
-    brk = [n for lp in loops for n in walk(lp) if n.get("k") == "Break"]
-    ctx.add("FRESH", "head:j-loop", bool(loops) and bool(brk) and len(incs) >= 1, ctx.site(b), "the search over j is an unbounded loop that breaks at the first free name")
+    # the counter is the local the candidate name is formatted from (by role: it occurs in a format! inside the loop)
+    fmt_src = " ".join(n["mac_src"] for lp in loops for n in walk(lp) if n.get("mac") == "format" and "mac_src" in n)
+    incs = [n for lp in loops for n in walk(lp) if n.get("k") == "AssignOp" and re.search(r"\b%s\b" % re.escape(hq.render(n.get("l", n.get("lhs", {})))), fmt_src)]
+    brk = [n for lp in loops for n in walk(lp) if n.get("k") in ("Break", "Ret")]
+    ctx.add("FRESH", "head:j-loop", bool(loops) and bool(brk) and len(incs) >= 1, ctx.site(b), "the search over j is an unbounded loop that stops at the first free name")
     # distinctness: names for different i differ (N<i> / N<i>_<j> contain i)
-    ctx.add("FRESH", "head:distinct", ok and ok2 and all("{i}" in p_[1][1] for p_ in ps), ctx.site(b), "every candidate name contains the index of its head term, so two head terms never share a variable")
+    ctx.add("FRESH", "head:distinct", ok and ok2 and all(e[0] == "format" and e[2][:1] == (I_,) for e in alts.values()), ctx.site(b),
+            "every candidate name contains the index of its head term, so two head terms never share a variable")
 
 
 def rule_sort_sites(ctx):
